@@ -107,6 +107,8 @@ struct Epoch {
     answered: Vec<bool>,
     outstanding: Vec<usize>,
     done: bool,
+    /// the client gave the piece up (another connection completed it first)
+    cancelled: bool,
     start_seq: u64,
     last_answer_ms: u64,
 }
@@ -130,6 +132,7 @@ pub fn check_tiling(t: &Torrent, o: &Outcome, a: &str, stats: &mut HashMap<&'sta
                     _ => return Some(Finding { sig: "C10:completion-without-epoch".into(), what: "a piece was reported complete although no tiling was in progress".into(), at_seq: e.seq }),
                 }
             }
+            if *kind == "PieceCancel" && e.addr == a { if let Some(x) = ep.as_mut() { if !x.done { x.cancelled = true; } } }
             if *kind == "KillReq" && e.addr == a { closed = true; }
             snap = Some(after.clone());
             continue;
@@ -156,7 +159,7 @@ pub fn check_tiling(t: &Torrent, o: &Outcome, a: &str, stats: &mut HashMap<&'sta
                     }
                     let tiles = tiling(t.piece_len_of(iu));
                     let nt = tiles.len();
-                    ep = Some(Epoch { piece: iu, tiles, sent: 0, answered: vec![false; nt], outstanding: vec![], done: false, start_seq: e.seq, last_answer_ms: 0 });
+                    ep = Some(Epoch { piece: iu, tiles, sent: 0, answered: vec![false; nt], outstanding: vec![], done: false, cancelled: false, start_seq: e.seq, last_answer_ms: 0 });
                     *stats.entry("epochs").or_default() += 1;
                 }
                 let x = match ep.as_mut() { Some(x) => x, None => return Some(Finding { sig: "C10:request-not-starting-at-zero".into(), what: format!("first request of an assignment is ({},{},{})", i, b, l), at_seq: e.seq }) };
@@ -196,6 +199,9 @@ pub fn check_tiling(t: &Torrent, o: &Outcome, a: &str, stats: &mut HashMap<&'sta
                     }
                 }
             }
+            EvKind::Send { msg: Msg::Cancel(i, _, _), .. } => {
+                if let Some(x) = ep.as_mut() { if x.piece == *i as usize && !x.done { x.cancelled = true; x.outstanding.clear(); *stats.entry("epochs_cancelled").or_default() += 1; } }
+            }
             EvKind::PeerSent { msg: Some(Msg::Choke), .. } => {
                 // a choke ends the epoch for the oracle: the client will start over after Unchoke
                 if let Some(x) = ep.as_mut() { if !x.done { x.outstanding.clear(); } }
@@ -208,7 +214,7 @@ pub fn check_tiling(t: &Torrent, o: &Outcome, a: &str, stats: &mut HashMap<&'sta
     // and a fully answered piece was completed
     if let Some(x) = &ep {
         let choked_now = snap.as_ref().and_then(|s| s.peers.iter().find(|p| p.addr == a)).map(|p| p.choked).unwrap_or(true);
-        if !closed && !x.done && !choked_now && x.last_answer_ms + 2_000 < o.end_ms && o.events.iter().rev().find(|e| e.addr == a && matches!(e.kind, EvKind::PeerSent { .. })).map(|e| e.ms + 2_000 < o.end_ms).unwrap_or(true) {
+        if !closed && !x.done && !x.cancelled && !choked_now && x.last_answer_ms + 2_000 < o.end_ms && o.events.iter().rev().find(|e| e.addr == a && matches!(e.kind, EvKind::PeerSent { .. })).map(|e| e.ms + 2_000 < o.end_ms).unwrap_or(true) {
             let accepted = x.answered.iter().filter(|b| **b).count();
             let want = x.tiles.len().min(2 + accepted);
             *stats.entry("quiescent_epochs_checked").or_default() += 1;
@@ -237,7 +243,20 @@ pub fn gen_scenario(r: &mut Rng, seed: u64) -> Scenario {
     let order_name = ["in order", "newest first", "random"][c.order as usize];
     let desc = json!({"seed": seed, "piece_length": piece_len, "pieces": n, "last_piece_length": last, "blocks_per_piece": tiling(piece_len).len(), "peer": {"answer_order": order_name, "dup_permille": c.dup, "withhold_permille": c.withhold, "latency_ms": [c.latency_ms.0, c.latency_ms.1], "choke_after(answers,ms)": format!("{:?}", c.choke_after)}});
     let c2 = c.clone();
-    let peers = vec![PeerSpec { addr: addr(0), id: peer_id(0), entry: Entry::Dialled { from_announce: 0 }, make: Box::new(move |nth| if nth > 1 { None } else { Some(tiler(c2.clone())) }), chunk: *r.pick(&[0usize, 0, 1, 1000]), pipe: 1 << 20 }];
+    let rival = r.chance(1, 3);
+    let mut peers = vec![PeerSpec { addr: addr(0), id: peer_id(0), entry: Entry::Dialled { from_announce: 0 }, make: Box::new(move |nth| if nth > 1 { None } else { Some(tiler(c2.clone())) }), chunk: *r.pick(&[0usize, 0, 1, 1000]), pipe: 1 << 20 }];
+    if rival {
+        // a second, ordinary seeder: in end game both are asked for the same piece and the loser is
+        // cancelled and re-assigned in the middle of a piece
+        let mut s = crate::sim::peers::SeederCfg::honest(peer_id(1), vec![true; n]);
+        s.unchoke_after_ms = Some(r.range(0, 300));
+        s.latency_ms = match r.below(3) { 0 => (0, 5), 1 => (5, 100), _ => (50, 900) };
+        s.idle_close_ms = 100_000;
+        let s2 = s.clone();
+        peers.push(PeerSpec { addr: addr(1), id: peer_id(1), entry: Entry::Dialled { from_announce: 0 }, make: Box::new(move |nth| if nth > 1 { None } else { Some(crate::sim::peers::seeder(s2.clone())) }), chunk: 0, pipe: 1 << 20 });
+    }
+    let mut desc = desc;
+    desc["rival_seeder"] = json!(rival);
     Scenario { cfg: SimCfg { torrent, peers, tracker: vec![], failpoints: if r.chance(1, 3) { Some(r.next()) } else { None }, max_virtual_ms: end_ms - 1000, stop_on_extract: true, linger_ms: 100, disk_on: disk_never, seed, tracker_fn: None, driver: None }, desc }
 }
 
